@@ -99,7 +99,12 @@ Step   == /\ Ev.k = "step"
           /\ LET b == Ev.b IN
              IF phase \notin {"eval", "t1", "t2"}           THEN Fail("comb-step-outside-a-pass")
              ELSE IF b \notin CombSteps(D)                  THEN Fail("unknown-block")
-             ELSE IF b \in done /\ ~InCycle(d, b)           THEN Fail("ran-twice")
+             \* "exactly once when the dependency graph is acyclic" (C02).  In a block-cyclic design the
+             \* implementation's cyclic groups may be larger than the cell-level groups of this
+             \* specification (a net block relays a WHOLE signal, so a writer of o1[4:8] and a reader of
+             \* the aliased g.i0[0:3] are linked through it): any step may then run again; its enabling
+             \* condition and its effect are checked like those of a first run.
+             ELSE IF b \in done /\ ~BlockCyclic(d)          THEN Fail("ran-twice")
              ELSE IF ~Ready(b)                              THEN Fail("reader-before-writer")
              ELSE IF Exec(D, b, val) # Ev.st                THEN Fail("wrong-value")
              ELSE /\ val' = Ev.st /\ done' = done \cup {b}
